@@ -764,7 +764,9 @@ run_msgq(void *arg)
 			cap      = n;
 			int keep = ql > n + 1 ? n + 1 : ql;
 			int drop = ql - keep;
-			if ((int) mq->mq_len != keep)
+			// (blocked writers may move into room that the resize created;
+			// they are accounted for below as completed puts)
+			if ((int) mq->mq_len < keep)
 				vs_fail("C18:msgq:resize",
 				    "[%s] resize(%d) with %d queued kept %u messages, "
 				    "expected %d (only as many as no longer fit may go)",
